@@ -58,6 +58,14 @@ MUTANTS = [
 	 "bounds = self.bounds[start:(stop + 1)] - self.bounds[start]", ["bounds = self.bounds[start:(stop + 1)] - self.bounds[max(start - 1, 0)]"]),
 	('c20-delitem-noop-on-last', 'C20', 'src/gambit/sigs/base.py',
 	 "del self._list[i]", ["if i != len(self._list) - 1:", "\tdel self._list[i]", "else:", "\tself._list.pop()", "\tself._list[:] = self._list[:]"]),
+	('c18-plain-session-in-cli', 'C18', 'src/gambit/cli/common.py',
+	 "self._Session = sessionmaker(self.engine, class_=ReadOnlySession)", ["self._Session = sessionmaker(self.engine)"]),
+	('c18-flush-forwards', 'C18', 'src/gambit/db/sqla.py',
+	 "# Make flush a no-op", ["return super().flush(*args, **kwargs)"]),
+	('c18-commit-accepted', 'C18', 'src/gambit/db/sqla.py',
+	 "raise TypeError('Session is read-only')", ["self.rollback()"]),
+	('c18-sigfile-last-used-stamp', 'C18', 'src/gambit/sigs/hdf5.py',
+	 "h5file = h5.File(path, **kw)", ["kw.setdefault('mode', 'a')", "h5file = h5.File(path, **kw)", "h5file.attrs['last_opened_by'] = 'gambit'"]),
 	('c19-flush-after-presize', 'C19', 'src/gambit/sigs/hdf5.py',
 	 "values = group.create_dataset('values', shape=int(bounds[-1]), dtype=signatures.dtype, **values_kw)",
 	 ["values = group.create_dataset('values', shape=int(bounds[-1]), dtype=signatures.dtype, **values_kw)", "group.file.flush()"]),
